@@ -148,8 +148,30 @@ def r01_3(ctx, A):
                 if any(l is not None and (l[:2] == (1, A.b_wtr) or (len(l) == 1 and m.local_ty(l[0]).startswith(A.cw))) for l in arg_locs(m, t)) or any(l is not None and len(l) == 1 and m.local_ty(l[0]) in ('W/#0',) for l in arg_locs(m, t)):
                     emitters.append(m.path)
     em = sorted(set(emitters))
-    names = sorted(x.rsplit('::', 1)[-1] for x in em)
-    ctx.check(R, names == ['compile', 'into_inner', 'new_type'], 'emitters', 'only the header writer, the node compiler and the footer writer may emit through the builder\'s writer (found %s)' % names, detail=em)
+    # roles: the constructor (no self, returns the builder), the node compiler (calls the node encoder), the finisher (consumes self);
+    # a private helper that is only called from those is part of them
+    def role(path):
+        m = lib.fns[path]
+        if any((m.callee(t) or '').endswith('::compile_to') for _, t in m.calls()):
+            return 'compiler'
+        if m.arg_count >= 1 and adt_base(m.local_ty(1)) == A.builder and not m.local_ty(1).startswith('&'):
+            return 'finisher'
+        if A.builder in m.local_ty(0) and not (m.arg_count >= 1 and A.builder in m.local_ty(1)):
+            return 'constructor'
+        return None
+
+    def covered(path, seen=()):
+        if role(path):
+            return True
+        m = lib.fns[path]
+        callers = [c for c in cg.rev.get(path, ()) if c in lib.fns]
+        if m.d.get('vis') == 'public' or not callers or path in seen:
+            return False
+        return all(covered(c, seen + (path,)) for c in callers)
+    roles = sorted({role(x) for x in em if role(x)})
+    stray = [x for x in em if not covered(x)]
+    ctx.check(R, roles == ['compiler', 'constructor', 'finisher'] and not stray, 'emitters',
+              'only the header writer (constructor), the node compiler and the footer writer (finisher), or private helpers of theirs, may emit through the builder\'s writer (roles %s, others %s)' % (roles, stray), detail=em)
     return f
 
 
